@@ -18,12 +18,14 @@
    nothing else scheduled, every node ran or was skipped, and the only live handle is the output.
    Completion order inside a superstep is not an observable of the property, hence the multiset
    comparisons. *)
-From Eino Require Import Base.Util Model.StreamAcct Model.StreamRun.
+From Eino Require Import Base.Util Model.StreamAcct Model.StreamRun Model.StreamResume.
 Open Scope N_scope.
 
 Record ccase := {
   c_graph : graph;
-  c_sched : list batch;
+  c_cfg : icfg;                          (* interruptBeforeNodes / interruptAfterNodes *)
+  c_segs : list (list batch);            (* the calls of the run (the first run and every resumed run), in order;
+                                            the first one starts with START's pseudo task *)
   c_subs : list (graph * list batch);   (* the runs of the nested graphs, in order of their start *)
   c_copies : list Z;          (* observed, sorted ascending *)
   c_resolve_closes : nat;     (* observed *)
@@ -35,28 +37,27 @@ Record ccase := {
   c_handlers : nat;           (* callback handlers passed with WithCallbacks *)
   c_cb_sides : list nat;      (* for every lambda execution: how many sides of its own paradigm are streams (0..2) *)
   c_cb_copies : list Z;       (* observed: sizes of the Copy calls of callbacks.OnWithStreamHandle *)
-  c_interrupt : bool;         (* the case is the first segment of an interrupted run: schedule up to the
-                                 pass followed by the interrupt exit, observables until the interrupt was returned *)
   c_cp_drains : nat;          (* observed: streams concatenated by checkPointer.convertCheckPoint *)
+  c_input_closes : nat;       (* observed: ignored inputs of resumed calls closed by runner.run *)
 }.
 
 Definition mkc (w c : list key) (bs : list bdecl) : call := {| c_write_to := w; c_controls := c; c_branches := bs |}.
 Definition mkbd (nodata : bool) (ends : list key) : bdecl := {| bd_nodata := nodata; bd_ends := ends |}.
 Definition mkSub (dag : bool) (calls : list (key * call)) (sched : list batch) : graph * list batch :=
   ({| g_dag := dag; g_eager := false; g_calls := calls |}, sched).
+Definition mkRS (dag eager : bool) (calls : list (key * call)) (before after : list key)
+               (segs : list (list batch)) (subs : list (graph * list batch))
+               (cp : list Z) (rc uc cc sc : nat) (mg : list nat) (fired : list key)
+               (handlers : nat) (sides : list nat) (cbc : list Z) (drains closes : nat) : ccase :=
+  {| c_graph := {| g_dag := dag; g_eager := eager; g_calls := calls |};
+     c_cfg := {| i_before := before; i_after := after |}; c_segs := segs; c_subs := subs;
+     c_copies := cp; c_resolve_closes := rc; c_update_closes := uc; c_chan_closes := cc; c_skip_closes := sc;
+     c_merges := mg; c_fired := fired; c_handlers := handlers; c_cb_sides := sides; c_cb_copies := cbc;
+     c_cp_drains := drains; c_input_closes := closes |}.
 Definition mkR (dag eager : bool) (calls : list (key * call)) (sched : list batch) (subs : list (graph * list batch))
                (cp : list Z) (rc uc cc sc : nat) (mg : list nat) (fired : list key)
                (handlers : nat) (sides : list nat) (cbc : list Z) : ccase :=
-  {| c_graph := {| g_dag := dag; g_eager := eager; g_calls := calls |}; c_sched := sched; c_subs := subs;
-     c_copies := cp; c_resolve_closes := rc; c_update_closes := uc; c_chan_closes := cc; c_skip_closes := sc;
-     c_merges := mg; c_fired := fired; c_handlers := handlers; c_cb_sides := sides; c_cb_copies := cbc;
-     c_interrupt := false; c_cp_drains := 0 |}.
-Definition mkI (dag : bool) (calls : list (key * call)) (sched : list batch)
-               (cp : list Z) (rc uc cc sc : nat) (mg : list nat) (drains : nat) : ccase :=
-  {| c_graph := {| g_dag := dag; g_eager := false; g_calls := calls |}; c_sched := sched; c_subs := [];
-     c_copies := cp; c_resolve_closes := rc; c_update_closes := uc; c_chan_closes := cc; c_skip_closes := sc;
-     c_merges := mg; c_fired := []; c_handlers := 0; c_cb_sides := []; c_cb_copies := [];
-     c_interrupt := true; c_cp_drains := drains |}.
+  mkRS dag eager calls [] [] [sched] subs cp rc uc cc sc mg fired handlers sides cbc 0 0.
 
 Fixpoint zlist_eqb (a b : list Z) : bool :=
   match a, b with
@@ -93,7 +94,7 @@ Definition predict (ts : list task) : res prediction :=
         p_update_closes := fold_right Nat.add 0%nat (map a_update_closes accts);
         p_balanced := forallb balanced accts |}.
 
-Definition all_runs (c : ccase) : list (graph * list batch) := (c_graph c, c_sched c) :: c_subs c.
+Definition all_runs (c : ccase) : list (graph * list batch) := (c_graph c, List.concat (c_segs c)) :: c_subs c.
 
 Definition bad_tasks (c : ccase) : bool :=
   match (do tss <- res_mapM (fun gs => tasks_of (fst gs) (snd gs)) (all_runs c); predict (List.concat tss)) with
@@ -107,23 +108,24 @@ Definition bad_tasks (c : ccase) : bool :=
 (* ---- (b) the runs: the top-level run and the run of every nested graph execution *)
 Record rpred := {
   q_copies : list Z; q_resolve : nat; q_update : nat; q_chan : nat; q_skip : nat; q_merges : list nat;
-  q_fired : list key;
+  q_fired : list key; q_drains : nat; q_closes : nat;
   q_ok : bool;   (* the hypotheses and the conclusion of the run theorems hold on this run *)
 }.
 
-Definition predict_run (g : graph) (sched : list batch) : res rpred :=
-  match run g sched with
-  | Ok (Done out dropped st) =>
+Definition predict_run (g : graph) (cfg : icfg) (segs : list (list batch)) : res rpred :=
+  match run_int g cfg segs with
+  | Ok (SDone out dropped st) =>
       let l := rs_log st in
       Ok {| q_copies := s_log (rs_store st); q_resolve := l_resolve_closes l; q_update := l_update_closes l;
             q_chan := l_chan_closes l; q_skip := l_skip_closes l; q_merges := l_merges l;
             q_fired := filter (fun k => negb (N.eqb k kEND)) (l_fired l);
+            q_drains := l_cp_drains l; q_closes := l_input_closes l;
             q_ok := nodup_keys (all_keys g) && negb (memb kEND (all_keys g)) && (negb (g_dag g) || covered g && all_reach g)
                     && match dropped with [] => true | _ => false end
                     && nlist_eqb (rs_pending st) [kEND]
                     && (negb (g_dag g) || all_finished g st)
                     && nlist_eqb (s_open (rs_store st)) [out] |}
-  | Ok (Running _) => Err E_BAD_SCHEDULE
+  | Ok _ => Err E_BAD_SCHEDULE
   | Err e => Err e
   | Panic => Panic
   end.
@@ -131,7 +133,7 @@ Definition predict_run (g : graph) (sched : list batch) : res rpred :=
 Definition sumn (f : rpred -> nat) (l : list rpred) : nat := fold_right Nat.add 0%nat (map f l).
 
 Definition bad_run (c : ccase) : bool :=
-  match predict_run (c_graph c) (c_sched c), res_mapM (fun gs => predict_run (fst gs) (snd gs)) (c_subs c) with
+  match predict_run (c_graph c) (c_cfg c) (c_segs c), res_mapM (fun gs => predict_run (fst gs) icfg0 [snd gs]) (c_subs c) with
   | Ok top, Ok subs =>
       let all := top :: subs in
       negb (zlist_eqb (sort_by Z.ltb (flat_map q_copies all)) (c_copies c)
@@ -141,66 +143,28 @@ Definition bad_run (c : ccase) : bool :=
             && Nat.eqb (sumn q_skip all) (c_skip_closes c)
             && natlist_eqb (sort_by Nat.ltb (flat_map q_merges all)) (c_merges c)
             && nlist_eqb (sort_by N.ltb (q_fired top)) (c_fired c)
+            && Nat.eqb (q_drains top) (c_cp_drains c)
+            && Nat.eqb (q_closes top) (c_input_closes c)
             && forallb q_ok all)
   | _, _ => true
   end.
 
-(* ---- (c) callback copies: every graph run (top level and nested) has two streaming callback
-   sites (graph start / graph end), every lambda execution one per streaming side of its paradigm *)
+(* ---- (c) callback copies: every call of the top-level runnable has a streaming callback site at its
+   start, the one that completes another one at its end (an interrupted call ends with OnError); every
+   nested graph run has two; every lambda execution one per streaming side of its paradigm *)
 Definition bad_callbacks (c : ccase) : bool :=
-  let sites := (2 * (1 + List.length (c_subs c)) + fold_right Nat.add 0%nat (c_cb_sides c))%nat in
+  let sites := (List.length (c_segs c) + 1 + 2 * List.length (c_subs c) + fold_right Nat.add 0%nat (c_cb_sides c))%nat in
   negb (zlist_eqb (callback_copies (c_handlers c) sites) (c_cb_copies c)).
 
-(* ---- (d) the first segment of an interrupted run: the run up to the last recorded pass is Running,
-   calculateNextTasks of that pass does not reach END, the interrupt exit drains the streams held by
-   the channels and the inputs of the tasks about to start — and nothing stays live
-   (theorem interrupt_exit_drains) *)
-Fixpoint split_last {A} (l : list A) : option (list A * A) :=
-  match l with
-  | [] => None
-  | [a] => Some ([], a)
-  | a :: l' => match split_last l' with Some (r, z) => Some (a :: r, z) | None => None end
-  end.
-
-Definition bad_interrupt (c : ccase) : bool :=
-  let g := c_graph c in
-  match split_last (c_sched c) with
-  | None => true
-  | Some (pre, last) =>
-      match run g pre with
-      | Ok (Running st) =>
-          match calc_next g last st with
-          | Ok (ready, st4) =>
-              match checkpoint_drain g ready st4 with
-              | Ok s =>
-                  let l := rs_log st4 in
-                  negb (zlist_eqb (sort_by Z.ltb (s_log (rs_store st4))) (c_copies c)
-                        && Nat.eqb (l_resolve_closes l) (c_resolve_closes c)
-                        && Nat.eqb (l_update_closes l) (c_update_closes c)
-                        && Nat.eqb (l_chan_closes l) (c_chan_closes c)
-                        && Nat.eqb (l_skip_closes l) (c_skip_closes c)
-                        && natlist_eqb (sort_by Nat.ltb (l_merges l)) (c_merges c)
-                        && Nat.eqb (List.length (held g st4 ++ map snd ready)) (c_cp_drains c)
-                        && match nlist_get kEND ready with None => true | Some _ => false end
-                        && nodup_keys (all_keys g) && negb (memb kEND (all_keys g)) && (negb (g_dag g) || covered g)
-                        && match s_open s with [] => true | _ => false end)
-              | _ => true
-              end
-          | _ => true
-          end
-      | _ => true
-      end
-  end.
-
-Definition bad (c : ccase) : bool :=
-  if c_interrupt c then bad_interrupt c else bad_tasks c || bad_run c || bad_callbacks c.
+Definition bad (c : ccase) : bool := bad_tasks c || bad_run c || bad_callbacks c.
 Definition mismatches (cs : list ccase) : list nat := mismatches_from bad 0 cs.
 
 (* for debugging a replay: what the run model computed *)
 Definition run_view (c : ccase) :=
-  match run (c_graph c) (c_sched c) with
-  | Ok (Done out dropped st) => Ok (true, out, dropped, s_open (rs_store st), s_log (rs_store st), rs_log st, rs_pending st, rs_resolved st)
-  | Ok (Running st) => Ok (false, 0, [], s_open (rs_store st), s_log (rs_store st), rs_log st, rs_pending st, rs_resolved st)
+  match run_int (c_graph c) (c_cfg c) (c_segs c) with
+  | Ok (SDone out dropped st) => Ok (1%nat, out, dropped, s_open (rs_store st), s_log (rs_store st), rs_log st, rs_pending st, rs_resolved st)
+  | Ok (SRunning st) => Ok (0%nat, 0, [], s_open (rs_store st), s_log (rs_store st), rs_log st, rs_pending st, rs_resolved st)
+  | Ok (SInt ready st) => Ok (2%nat, 0, ready, s_open (rs_store st), s_log (rs_store st), rs_log st, rs_pending st, rs_resolved st)
   | Err e => Err e
   | Panic => Panic
   end.
